@@ -1433,3 +1433,95 @@ type Ctl struct {
 		symxAssert(err != nil, "C10.front.unbound-url-parameter-is-rejected")
 	}
 }
+
+// C07 through the front end, JSON names and further field shapes: omitempty without a name, a renamed field, pointer
+// embedding, arrays, double pointers, an assigned alias
+func vh_C07_front_shapes_Q() {
+	shape := symxChoice("shape", 8)
+	field := []string{
+		"A string `json:\",omitempty\"`",
+		"A string `json:\"renamed,omitempty\"`",
+		"A [3]int",
+		"A **Leaf",
+		"A AID",
+		"*Base",
+		"A map[string][]Leaf",
+		"A, B int `json:\"same\"`",
+	}[shape]
+	src := `package ctl
+
+import "github.com/gopher-fleece/runtime"
+
+type Leaf struct {
+	V int ` + "`json:\"v\"`" + `
+}
+
+type AID = string
+
+type Base struct {
+	Id string ` + "`json:\"id\"`" + `
+}
+
+type Inner struct {
+	` + field + `
+}
+
+// @Route(/c)
+type Ctl struct {
+	runtime.GleeceController
+}
+
+// @Method(POST)
+// @Route(/op)
+// @Body(b)
+func (c *Ctl) Op(b Inner) error { return nil }
+`
+	fr, err := visitors.VhLoadSource(src, nil)
+	symxAssert(err == nil, "C07.front.fixture-loads")
+	if err != nil {
+		return
+	}
+	meta, err := pipeline.VhNewPipeline(fr, vhFrontConfig()).Run()
+	if err != nil {
+		symxRecord("refused", err.Error())
+	}
+	symxAssert(err == nil, "C07.front.project-is-accepted")
+	if err != nil {
+		return
+	}
+	doc30, doc31 := vhNewDoc30(), vhNewDoc31()
+	symxAssert(swagen30.GenerateModelsSpec(doc30, &meta.Models) == nil && swagen31.GenerateModelsSpec(doc31, &meta.Models) == nil, "C07.front.models-no-error")
+	symxCover("C07.front.shapes-built")
+	p31, _ := doc31.Components.Schemas.Get("Inner")
+	for vi, v := range []vhSchemaView{vhView30(doc30.Components.Schemas["Inner"]), vhView31(p31)} {
+		ver := []string{"30", "31"}[vi]
+		symxRecord("inner"+ver, strings.Join(v.props, ","), strings.Join(v.propRefs, ","), strings.Join(v.propTyps, ","), strings.Join(v.allOf, ","))
+		switch shape {
+		case 0:
+			symxAssert(vhSameStrings(v.props, []string{"A"}), "C07.front."+ver+".omitempty-without-a-name-keeps-the-field-name")
+		case 1:
+			symxAssert(vhSameStrings(v.props, []string{"renamed"}), "C07.front."+ver+".json-name")
+		case 2:
+			symxAssert(vhSameStrings(v.props, []string{"A"}) && v.propTyps[0] == "array", "C07.front."+ver+".array-field")
+		case 3:
+			symxAssert(vhSameStrings(v.props, []string{"A"}) && v.propRefs[0] == "#/components/schemas/Leaf", "C07.front."+ver+".pointer-field-refers-to-the-struct")
+		case 4:
+			// an alias is a component of its own that maps to the primitive; the field refers to it
+			symxAssert(vhSameStrings(v.props, []string{"A"}) && v.propRefs[0] == "#/components/schemas/AID", "C07.front."+ver+".alias-field-refers-to-the-alias-component")
+			var av vhSchemaView
+			if vi == 0 {
+				av = vhView30(doc30.Components.Schemas["AID"])
+			} else {
+				ap, _ := doc31.Components.Schemas.Get("AID")
+				av = vhView31(ap)
+			}
+			symxAssert(av.typ == "string" && len(av.props) == 0, "C07.front."+ver+".assigned-alias-maps-to-its-primitive")
+		case 5:
+			symxAssert(v.isAllOf && vhSameStrings(v.allOf, []string{"#/components/schemas/Base"}), "C07.front."+ver+".pointer-embedding-via-allOf")
+		case 6:
+			symxAssert(vhSameStrings(v.props, []string{"A"}) && v.propTyps[0] == "object", "C07.front."+ver+".map-field-is-an-object")
+		case 7:
+			symxAssert(vhSameStrings(v.props, []string{"same"}), "C07.front."+ver+".two-names-one-json-name")
+		}
+	}
+}
